@@ -7,6 +7,10 @@
                        every satisfying assignment (it is THE solution; it is the row `an` yields)
     c06_multi_iff      with every variable selected: MultipleSolutionFound ⇔ two satisfying
                        assignments with different projections exist
+    c06_ok_iff         with every variable selected: `the` returns r ⇔ some satisfying assignment projects
+                       to r and every satisfying assignment does (both directions: it neither raises nor
+                       returns another value when the solution is unique)
+    c06_trichotomy     the three outcomes are exhaustive and exclusive, decided by the number of rows of `an`
   Re-evaluation: `runThe` is a function of the query and the data only; that the implementation's
   state does not leak between evaluations is C04's invariant (checked here by evaluating twice).
 -/
@@ -107,5 +111,55 @@ theorem c06_multi_iff [Inhabited V] (q : Query V) (hf : q.noFlat = true)
         simp at m1 m2
         exact absurd (m1.trans m2.symm) hdiff
       | cons b bs => rfl
+
+/-- **C06, exact characterisation of the returned value** (every variable selected, duplicate-free
+    domains): `the` returns `r` IF AND ONLY IF some satisfying assignment projects to `r` and every
+    satisfying assignment does - neither raising nor returning anything else. -/
+theorem c06_ok_iff [Inhabited V] (q : Query V) (hf : q.noFlat = true)
+    (hD : ∀ v, (D v).Nodup) (vs : List VarId) (hsel : q.sel = vs.map Term.var)
+    (hall : ∀ v ∈ q.condVars, v ∈ vs) (r : List V) :
+    runThe W D q = .ok r ↔
+      (∃ α, q.Adm D α ∧ q.holds W α = true ∧ r = termsVal W α q.sel) ∧
+      (∀ α, q.Adm D α → q.holds W α = true → termsVal W α q.sel = r) := by
+  have hne : ∀ v ∈ q.condVars, v ∉ Terms.vars q.sel → D v ≠ [] := by
+    intro v hv hns
+    exact absurd (by rw [hsel, terms_vars_vars]; exact hall v hv) hns
+  constructor
+  · exact c06_ok W D q hf hne r
+  · rintro ⟨⟨α, ha, hh, he⟩, huniq⟩
+    have hnd := c02_rows_nodup W D q hf hD vs hsel hall
+    have m1 := c02_rows_complete W D q hf α ha hh
+    rw [← he] at m1
+    have hallr : ∀ r' ∈ rows W D q, r' = r := by
+      intro r' hr'
+      obtain ⟨α', ha', hh', he'⟩ := c02_rows_sound W D q hf hne r' hr'
+      rw [he']; exact huniq α' ha' hh'
+    rw [c06_consistent_with_an]
+    cases hr : rows W D q with
+    | nil => rw [hr] at m1; cases m1
+    | cons a as =>
+      cases as with
+      | nil => rw [hr] at hallr; rw [hallr a (by simp)]
+      | cons b bs =>
+        exfalso
+        rw [hr] at hallr hnd
+        have e1 := hallr a (by simp)
+        have e2 := hallr b (by simp)
+        rw [List.nodup_cons] at hnd
+        exact hnd.1 (by rw [e1, ← e2]; simp)
+
+/-- The three outcomes are exhaustive and mutually exclusive, and each is decided by the number of
+    rows `an` yields. -/
+theorem c06_trichotomy (q : Query V) :
+    (runThe W D q = .noSolution ∧ (rows W D q).length = 0) ∨
+    (∃ r, runThe W D q = .ok r ∧ rows W D q = [r]) ∨
+    (runThe W D q = .multipleSolutions ∧ 2 ≤ (rows W D q).length) := by
+  unfold runThe
+  cases h : rows W D q with
+  | nil => left; simp
+  | cons a as =>
+    cases as with
+    | nil => right; left; exact ⟨a, rfl, rfl⟩
+    | cons b bs => right; right; simp
 
 end Eql
